@@ -7,7 +7,7 @@ from checks import common
 def specs():
     out = [TaskSpec("raise_event", "contracts.events", "task_c14_dispatch", (), replay_kind="driver.events")]
     for k in ("text", "number", "light", "blob", "switch"):
-        ops = ["assign", "set_value", "read"] + (["write"] if k in ("text", "light") else [])
+        ops = ["assign", "set_value", "read"] + (["write"] if k in ("text", "light") else []) + (["publish"] if k != "number" else [])
         for op in ops:
             out.append(TaskSpec("%s/%s" % (k, op), "contracts.events", "task_c14", (k, op), replay_kind="driver.events"))
     return out
@@ -31,4 +31,6 @@ def run(tier, seed):
         "handler *registration* (attach_event_handlers' dir() scan, the @on decorator) is outside the verified dispatch path",
     ]
     chk.min_obligations = 300
+    chk.standin_on_out_of_reach("native event scenarios", "driver.events_all", {},
+                                bound_text="native scenarios (handler configurations 0-2 plain/coroutine/vetoing handlers, changed and unchanged values) x element kinds x {assign, set_value, read, publish}")
     return chk.finish()
